@@ -55,7 +55,7 @@ namespace AIToolbox::Factored {
         }
 
         size_t i = 0, j = 0;
-        while (j < smallerK->size()) {
+        while (j < smallerK->size() && i < biggerK->size()) {
             if ((*biggerK)[i] < (*smallerK)[j]) ++i;
             else if ((*biggerK)[i] > (*smallerK)[j]) ++j;
             else {
